@@ -84,7 +84,12 @@ PROPS_PART = {
                dict(unit='reader', which='all'), dict(unit='name_wire', which='all'), dict(unit='writer_core', which='all', fns=['set_rcode', 'rcode', 'set_extended_rcode', 'extended_rcode'])],
         native=[dict(bin='bnd_server_scan', when='quick',
                      bound='tier A: 16 opcodes x QR x 3 flag sets x 3 values of the 4th header octet x (2 + 18 x 2) question variants (QDCOUNT 0/1/2; compressed, self-pointing, cut-off, 255/256-octet QNAMEs; QTYPE IXFR/AXFR/MAILB/MAILA/ANY; QCLASS ANY/CH) x 5 additional menus x trailing octet 0/1; tier B: 9 answer/authority layouts (A, OPT, TSIG) x every sequence of <= 2 additional records over a 32-item menu (plain/compressed/overrunning/cut records; OPT version 0/1/255, ext-rcode 0x80, DO, sizes 0..65535, non-root / self-pointing owner, broken option framing, overrunning RDLENGTH; TSIG unknown key/algorithm, class IN, TTL 5 / 0x80000000, malformed, compressed owner) and <= 3 over an 8-item menu x 4 opcode/question variants x count tweaks (ARCOUNT+1/-1/65535, ANCOUNT+1) x trailing octet; tier C: every prefix of the tier-B QUERY messages with <= 1 additional record (9 layouts) or 2 (no answer/authority records); tier D: TSIG key/algorithm names of 3..255 octets x 7 EDNS settings x 2 QNAMEs; tier E: 24 QNAMEs x 12 QTYPEs x 7 QCLASSes x 7 opcodes on a nested 3-class catalog; tier F: 23 names x 11 QTYPEs x 3 EDNS settings on zones with malformed RDATA / without SOA; each over UDP and TCP, exactly-sized and oversized response buffer, up to 9 servers (payload 512/1232/4096/65535, with/without keys, RRL off / never limiting / 1 per s)',
-                     what='the reference walk (first problem in message order: unparseable question, undelimitable record, OPT/TSIG outside additional, second OPT, TSIG not last / wrong class / raw TTL != 0 / malformed, trailing octets, QUERY without question) against the real responses: FORMERR with no answer/authority records, never replaced; earlier BADVERS / TSIG errors take precedence')],
+                     what='the reference walk (first problem in message order: unparseable question, undelimitable record, OPT/TSIG outside additional, second OPT, TSIG not last / wrong class / raw TTL != 0 / malformed, trailing octets, QUERY without question) against the real responses: FORMERR with no answer/authority records, never replaced; earlier BADVERS / TSIG errors take precedence'),
+                dict(bin='bnd_server_tsig', when='quick',
+                     bound='requests signed by an independent RFC 8945 signer (8 key/algorithm choices x 16 MAC edits x 5 time offsets x fudge 300 x 2 ID/EDNS combinations x UDP/TCP): every one whose TSIG '
+                           'verifies (reference verdict) followed by 1 octet (00), 2 octets (c0 0c), 3 octets (00 00 01) or a complete uncounted A record after the TSIG record',
+                     what='"octets remain after the last counted record" behind a TSIG record that verifies: the response (checked by srv_ref.rs: decodes, ID/question echoed) has RCODE FORMERR and no '
+                          'answer/authority/additional data; only counterexamples tagged [C08] count here (requests whose TSIG fails are C10 business: the TSIG error comes first)')],
         kani=[],
         cex={},
         unverified=['RDATA well-formedness inside rr_at (rdata_read_spec) is the RDATA units\' oracle (C18)'],
